@@ -12,6 +12,7 @@ ID = 'C03'
 BUDGET = {'quick': 20000, 'thorough': 1000000}
 WALL = {'quick': 100, 'thorough': 1500}
 CHUNK = 50
+REQUIRED_PROBES = ['gather_steps', 'alltoall_steps', 'equal_grid_extents', 'grid_extent_1', 'family_driver', 'family_random', 'several_2d_groups']
 RULE = ('case = (3-D/4-D shape, 2-D process grid incl. equal extents and extents of 1, grouping of '
         'orderings into handlers with their process counts [driver family: the groupings built by '
         'fullSimulation.py and the upstream tests plus extra orderings; random family: 1-4 groups of '
